@@ -39,6 +39,26 @@ type Op17 struct {
 	BadType int `json:"bad_type,omitempty"`
 	// SendFail: the socket refuses this NoWait request (errno): nothing went out, nothing is pending
 	SendFail int `json:"send_fail,omitempty"`
+	// Setter: which Set* command carries a nowait / wait request (index into c17Setters; 0 = SetRateLimit)
+	Setter int `json:"setter,omitempty"`
+}
+
+var c17Setters = []string{"SetRateLimit", "SetImmutable", "SetBacklogWaitTime", "SetEnabled", "SetFailure", "SetBacklogLimit"}
+
+func c17Set(cl *libaudit.AuditClient, o Op17, wm libaudit.WaitMode) error {
+	switch c17Setters[o.Setter%len(c17Setters)] {
+	case "SetImmutable":
+		return cl.SetImmutable(wm)
+	case "SetBacklogWaitTime":
+		return cl.SetBacklogWaitTime(int32(o.U32), wm)
+	case "SetEnabled":
+		return cl.SetEnabled(o.U32%2 == 1, wm)
+	case "SetFailure":
+		return cl.SetFailure(libaudit.FailureMode(o.U32%3), wm)
+	case "SetBacklogLimit":
+		return cl.SetBacklogLimit(o.U32, wm)
+	}
+	return cl.SetRateLimit(o.U32, wm)
 }
 
 type C17Case struct {
@@ -59,7 +79,7 @@ type C17Case struct {
 func (c C17Case) Describe() string {
 	var b strings.Builder
 	for i, o := range c.Ops {
-		fmt.Fprintf(&b, " %d %s u32=%d ack-errno=%d rules=%x noise=%d eintr=%d hard=%d answer-type=%d send-refused=%d\n", i, o.K, o.U32, o.Errno, o.Rules, o.Noise, o.Eintr, o.Hard, o.BadType, o.SendFail)
+		fmt.Fprintf(&b, " %d %s(%s) u32=%d ack-errno=%d rules=%x noise=%d eintr=%d hard=%d answer-type=%d send-refused=%d\n", i, o.K, c17Setters[o.Setter%len(c17Setters)], o.U32, o.Errno, o.Rules, o.Noise, o.Eintr, o.Hard, o.BadType, o.SendFail)
 	}
 	fmt.Fprintf(&b, " (closing the socket returns errno %d)", c.CloseErrno)
 	fmt.Fprintf(&b, " then Close x %d (sends during Close fail with errno %d), then WaitForPendingACKs x %d (reads on the closed socket fail: %v), then %v\n", c.Closes, c.CloseSendErrno, c.AfterClose, c.ClosedReads, c.Tail)
@@ -77,6 +97,7 @@ func genC17(t *rapid.T) C17Case {
 	for i, n := 0, nops; i < n; i++ {
 		o := Op17{K: rapid.SampledFrom(kinds).Draw(t, "k")}
 		o.U32 = rapid.Uint32Range(0, 9999).Draw(t, "u32")
+		o.Setter = rapid.IntRange(0, len(c17Setters)-1).Draw(t, "setter")
 		if rapid.IntRange(0, 3).Draw(t, "fail") == 0 {
 			o.Errno = rapid.SampledFrom([]int{int(syscall.EPERM), int(syscall.EINVAL), int(syscall.EBUSY), int(syscall.ENOMEM)}).Draw(t, "errno")
 		}
@@ -240,7 +261,7 @@ func propC17(c C17Case) error {
 			var err error
 			if o.SendFail != 0 {
 				k.SendErr = syscall.Errno(o.SendFail)
-				err = cl.SetRateLimit(o.U32, libaudit.NoWait)
+				err = c17Set(cl, o, libaudit.NoWait)
 				k.SendErr = nil
 				if err == nil {
 					return fmt.Errorf("%s: the socket refused the request (errno %d) but the call returned nil", what, o.SendFail)
@@ -255,7 +276,7 @@ func propC17(c C17Case) error {
 				err = cl.SetPID(libaudit.NoWait)
 				usedPID = true
 			} else {
-				err = cl.SetRateLimit(o.U32, libaudit.NoWait)
+				err = c17Set(cl, o, libaudit.NoWait)
 			}
 			if err != nil {
 				return fmt.Errorf("%s: NoWait request failed: %v", what, err)
@@ -283,7 +304,7 @@ func propC17(c C17Case) error {
 				err = cl.SetPID(libaudit.WaitForReply)
 				usedPID = true
 			} else {
-				err = cl.SetBacklogLimit(o.U32, libaudit.WaitForReply)
+				err = c17Set(cl, Op17{Setter: o.Setter + 5, U32: o.U32}, libaudit.WaitForReply)
 			}
 			if (o.Errno == 0) != (err == nil) {
 				return fmt.Errorf("%s: ack errno %d but result %v", what, o.Errno, err)
